@@ -41,8 +41,8 @@ METHODS = ['cosine', 'corr', 'rho-a']
 
 
 # ----------------------------------------------------------------------------- data and models
-def make_data(n_rdm, n_cond, seed):
-    d = selfdesc.build(list(range(n_rdm)), list(range(n_cond)))
+def make_data(n_rdm, n_cond, seed, container='list'):
+    d = selfdesc.build(list(range(n_rdm)), list(range(n_cond)), container=container)
     g = rng_for(seed, 'c04data', n_rdm, n_cond)
     d.dissimilarities = np.round(g.uniform(0.2, 3.0, size=d.dissimilarities.shape), 3)
     return d
@@ -77,16 +77,16 @@ class RecFitter:
         return theta
 
 
-def make_models(kinds, n_cond, seed):
+def make_models(kinds, n_cond, seed, container='list'):
     """-> (models, spec) where spec[i] = dict(kind, basis, theta) for the reference"""
     from rsatoolbox import model as MD
     models, spec = [], []
     B = basis_vectors(n_cond, seed)
     for kind in kinds:
-        obj = selfdesc.build([7, 8], list(range(n_cond)))
+        obj = selfdesc.build([7, 8], list(range(n_cond)), container=container)
         obj.dissimilarities = B.copy()
         if kind == 'fixed':
-            o1 = selfdesc.build([7], list(range(n_cond)))
+            o1 = selfdesc.build([7], list(range(n_cond)), container=container)
             o1.dissimilarities = B[:1].copy()
             models.append(MD.ModelFixed('fixed', o1))
             spec.append({'kind': 'fixed', 'basis': B[:1], 'theta': None})
@@ -217,6 +217,33 @@ def configs(tier):
                     continue
                 out.append({'routine': 'crossval', 'n_rdm': nr, 'n_cond': nc, 'method': method, 'gen': gen,
                             'models': ['fixed', 'fitted']})
+    # (array-typed, increasing pattern descriptor used for the folds: shares memory with the data)
+    for gen in ('sets_k_fold', 'sets_k_fold_pattern'):
+        out.append({'routine': 'crossval', 'n_rdm': 3, 'n_cond': 6, 'method': 'cosine', 'gen': gen,
+                    'models': ['fixed', 'fitted'], 'container': 'ndarray', 'pat_desc': 'cid'})
+    for bt in ('both', 'pattern', 'rdm'):
+        out.append({'routine': 'bootstrap_crossval', 'n_rdm': 3, 'n_cond': 6, 'method': 'cosine', 'boot_type': bt,
+                    'k_pattern': 2, 'k_rdm': 1, 'n_cv': 1, 'N': 2, 'rdm_desc': 'index', 'pat_desc': 'cid',
+                    'models': ['fixed', 'fitted'], 'container': 'ndarray'})
+    # three resamples: one deviation makes one of them too small, the covariance then runs over two
+    for (kp, kr) in [(2, 1), (1, 1)]:
+        out.append({'routine': 'eval_dual_bootstrap', 'n_rdm': 3, 'n_cond': 6, 'method': 'cosine', 'k_pattern': kp,
+                    'k_rdm': kr, 'n_cv': 1, 'N': 3, 'rdm_desc': 'index', 'pat_desc': 'index', 'models': ['fixed', 'fitted']})
+    out.append({'routine': 'bootstrap_crossval', 'n_rdm': 3, 'n_cond': 6, 'method': 'cosine', 'boot_type': 'both',
+                'k_pattern': 2, 'k_rdm': 1, 'n_cv': 1, 'N': 3, 'rdm_desc': 'index', 'pat_desc': 'index',
+                'models': ['fixed', 'fitted']})
+    # every history over a menu of three draws per resample {identity, too small, generic}: NaN marking,
+    # exclusion of the NaN resamples from the covariance (27 histories each)
+    out.append({'routine': 'eval_dual_bootstrap', 'n_rdm': 3, 'n_cond': 6, 'method': 'cosine', 'k_pattern': 1,
+                'k_rdm': 1, 'n_cv': 1, 'N': 3, 'rdm_desc': 'index', 'pat_desc': 'index', 'models': ['fixed', 'fitted'],
+                'menu3': True})
+    out.append({'routine': 'bootstrap_crossval', 'n_rdm': 3, 'n_cond': 6, 'method': 'cosine', 'boot_type': 'both',
+                'k_pattern': 1, 'k_rdm': 1, 'n_cv': 1, 'N': 3, 'rdm_desc': 'index', 'pat_desc': 'index',
+                'models': ['fixed', 'fitted'], 'menu3': True})
+    for routine in ('eval_bootstrap', 'eval_bootstrap_pattern'):
+        out.append({'routine': routine, 'n_rdm': 3, 'n_cond': 6, 'method': 'cosine', 'rdm_desc': 'index',
+                    'pat_desc': 'index', 'N': 3, 'boot_noise_ceil': True, 'models': ['fixed', 'weighted'],
+                    'menu3': True})
     # D cross-validated bootstraps
     for (nr, nc) in [(3, 6)] + ([(4, 6), (3, 7)] if big else []):
         for method in (METHODS if big else ['cosine', 'corr']):
@@ -279,6 +306,11 @@ def _is_full(cfg):
 
 
 # ----------------------------------------------------------------------------- execution
+def _content(rdms):
+    from mc.util import fingerprint
+    return fingerprint([rdms.dissimilarities, selfdesc._strip(rdms.rdm_descriptors), selfdesc._strip(rdms.pattern_descriptors)])
+
+
 def _pin_after_first(n_first_calls):
     """pin every randint call after the first resample's to the identity draw"""
     def pin(kind, idx, args):
@@ -294,8 +326,10 @@ def execute(cfg, env, seed):
     import rsatoolbox.inference.evaluate as EV
     from rsatoolbox.inference import crossvalsets as CV
     r = cfg['routine']
-    data = make_data(cfg['n_rdm'], cfg['n_cond'], seed)
-    models, spec = make_models(cfg['models'], cfg['n_cond'], seed)
+    cont = cfg.get('container', 'list')
+    data = make_data(cfg['n_rdm'], cfg['n_cond'], seed, cont)
+    models, spec = make_models(cfg['models'], cfg['n_cond'], seed, cont)
+    data_fp = _content(data)
     rec = Recorder()
     fitter = RecFitter()
     fit_list = [fitter if s['kind'] == 'fitted' else None for s in spec]
@@ -323,15 +357,17 @@ def execute(cfg, env, seed):
                                             boot_noise_ceil=cfg['boot_noise_ceil'])
         elif r == 'crossval':
             g = cfg['gen']
+            pdn = cfg.get('pat_desc', 'index')
             if g == 'sets_k_fold':
-                sets = CV.sets_k_fold(data, k_rdm=min(2, cfg['n_rdm']), k_pattern=2, random=True)
+                sets = CV.sets_k_fold(data, k_rdm=min(2, cfg['n_rdm']), k_pattern=2, random=True, pattern_descriptor=pdn)
             elif g == 'sets_k_fold_pattern':
-                sets = CV.sets_k_fold_pattern(data, k=2, random=True)
+                sets = CV.sets_k_fold_pattern(data, k=2, random=True, pattern_descriptor=pdn)
             elif g == 'sets_k_fold_rdm':
                 sets = CV.sets_k_fold_rdm(data, k_rdm=2, random=True)
             else:
                 sets = CV.sets_leave_one_out_rdm(data)
-            res = EV.crossval(models, data, sets[0], sets[1], ceil_set=sets[2], method=cfg['method'], fitter=fit_list)
+            res = EV.crossval(models, data, sets[0], sets[1], ceil_set=sets[2], method=cfg['method'], fitter=fit_list,
+                              pattern_descriptor=pdn if g in ('sets_k_fold', 'sets_k_fold_pattern') else 'index')
         elif r == 'bootstrap_crossval':
             res = EV.bootstrap_crossval(models, data, method=cfg['method'], fitter=fit_list, k_pattern=cfg['k_pattern'],
                                         k_rdm=cfg['k_rdm'], N=cfg['N'], n_cv=cfg['n_cv'], boot_type=cfg['boot_type'],
@@ -350,7 +386,8 @@ def execute(cfg, env, seed):
             res = fn(models, data, method=cfg['method'], fitter=fit_list, N=cfg['N'])
         else:
             raise ValueError(r)
-    return {'res': res, 'rec': rec, 'fitter': fitter, 'data': data, 'spec': spec, 'sets': sets, 'calls': rng.calls}
+    return {'res': res, 'rec': rec, 'fitter': fitter, 'data': data, 'spec': spec, 'sets': sets, 'calls': rng.calls,
+            'data_unchanged': _content(data) == data_fp}
 
 
 def _menu3_pin(cfg):
@@ -358,14 +395,21 @@ def _menu3_pin(cfg):
     distinct conditions, generic) by ONE choice point per resample"""
     nr, nc = cfg['n_rdm'], cfg['n_cond']
 
+    state = {'randint': 0}
+
     def pin(kind, idx, args, env):
+        if kind in ('shuffle', 'permutation'):
+            return list(range(args[0]))          # fold assignment pinned to the identity order
         if kind != 'randint':
             return None
         low, high, k = args
         n = high - low
-        per = 2 if cfg['routine'] == 'eval_bootstrap' else 1
-        sample_no = idx // per
-        if idx % per == 0:
+        per = 2 if cfg['routine'] in ('eval_bootstrap', 'eval_dual_bootstrap') or \
+            (cfg['routine'] == 'bootstrap_crossval' and cfg.get('boot_type') == 'both') else 1
+        ri = state['randint']
+        state['randint'] += 1
+        sample_no = ri // per
+        if ri % per == 0:
             env._menu = env.choose(('menu', sample_no), 3)
         m = env._menu
         if m == 0:
@@ -412,6 +456,8 @@ def judge(cfg, obs, ctx, case):
     res, rec, spec, data = obs['res'], obs['rec'], obs['spec'], obs['data']
     method, nc = cfg['method'], cfg['n_cond']
     sig = r
+    if not obs.get('data_unchanged', True):
+        ctx.fail(sig + '|data-modified', case, 'the evaluation routine changed the data RDMs object it was given')
     if r.startswith('bootstrap_testset'):
         return _judge_testset(cfg, obs, ctx, case)
     ev = np.asarray(res.evaluations)
@@ -642,7 +688,9 @@ def _judge_folds(ctx, sig, case, cfg, spec, fitter, evals, train_set, test_set, 
             theta = s['theta']
             if s['kind'] == 'fitted':
                 if fit_ptr >= len(fitter.calls):
-                    raise HarnessError('binding lost: fewer recorded fitter calls than evaluated folds')
+                    ctx.fail(sig + '|fold-not-fitted', case, 'fold %d: no fitter call recorded for this fold '
+                             '(parameters were not fitted on this fold\'s training set)' % f)
+                    return fit_ptr
                 call = fitter.calls[fit_ptr]
                 fit_ptr += 1
                 theta = call['theta']
@@ -681,6 +729,8 @@ def run_shard(shard, ctx):
         bound, mx = (None, 40000) if (_is_full(cfg) or cfg.get('menu3')) else ((1 if ctx.tier == 'quick' else 2), 6000)
     elif r == 'crossval':
         bound, mx = (1 if ctx.tier == 'quick' else 3), 4000
+    elif cfg.get('menu3'):
+        bound, mx = None, 4000
     else:
         bound, mx = (1 if ctx.tier == 'quick' else 2), 4000
     first = True
